@@ -71,7 +71,9 @@ class Executor:
             self._sheets_size[sheet]['last_row'] = max(row, self._sheets_size[sheet]['last_row'])
             self._sheets_size[sheet]['last_column'] = max(column, self._sheets_size[sheet]['last_column'])
 
-        self._cells = {*cells, *self._cells}
+        # the most recent value of a cell replaces the earlier ones (also within one call)
+        new_cells = {cell.uid: cell for cell in cells}
+        self._cells = {cell for cell in self._cells if cell.uid not in new_cells} | set(new_cells.values())
         self._cells_have_been_changed = True
         return self
 
